@@ -548,6 +548,9 @@ class Program:
         if not c:
             return None
         ext = [f for f in c if not f.static]
+        if not ext and tu is None:
+            lib = [f for f in c if os.path.relpath(os.path.dirname(f.tu), REPO) in LIB_DIRS]
+            return (lib or c)[0]
         if tu:
             d = os.path.dirname(tu)
             same = [f for f in ext if os.path.dirname(f.tu) == d]
